@@ -213,7 +213,9 @@ class OpGen:
     def mixin(self) -> str:
         if not self.mixins or self.rng.random() > 0.2:
             return ""
-        mod, cls = self.rng.choice(self.mixins)
+        # user-supplied mixins: fields always use the last one and fragment definitions the first, so that the *user's* choice of mixins never
+        # asks Python for contradictory base orders (X(.., A, B) in one class and Y(.., B, A) in another, both inherited by a third)
+        mod, cls = self.mixins[-1]
         self.feats.add("mixin.on_field")
         return ' @mixin(from: "%s", import: "%s")' % (mod, cls)
 
@@ -356,7 +358,7 @@ class OpGen:
                 self.vars = saved_vars
             mix = ""
             if self.mixins and "mixin.on_fragment_def" in self.dirty and self.rng.random() < 0.3:
-                mod, cls = self.rng.choice(self.mixins)
+                mod, cls = self.mixins[0]
                 mix = ' @mixin(from: "%s", import: "%s")' % (mod, cls)
                 self.feats.add("mixin.on_fragment_def")
             self.frags[name] = (t.name, "fragment %s on %s%s %s" % (name, t.name, mix, text))
